@@ -43,7 +43,9 @@ import (
 
 type c20Variant struct {
 	ID          string `json:"id"`
-	Header      string `json:"header"` // value of the Authorization header ("" + Absent => header not sent)
+	Header      string `json:"header"`  // value of the Authorization header ("" + Absent => header not sent)
+	Header2     string `json:"header2"` // value of a second Authorization header line (when Second)
+	Second      bool   `json:"second"`
 	Absent      bool   `json:"absent"`
 	Combos      []int  `json:"combos"`       // request-header combinations (indexes into Config.Combos) sent with this value
 	TCPCombos   []int  `json:"tcp_combos"`   // ... through the real listener
@@ -640,6 +642,9 @@ func TestVerifC20(t *testing.T) {
 		}
 		if !s.v.Absent {
 			rq.Header["Authorization"] = []string{s.v.Header}
+			if s.v.Second {
+				rq.Header["Authorization"] = append(rq.Header["Authorization"], s.v.Header2) // repeated header
+			}
 		}
 		for _, h := range cb.Headers {
 			rq.Header[http.CanonicalHeaderKey(h[0])] = []string{h[1]}
